@@ -20,7 +20,14 @@ import (
 	"verif/sim"
 )
 
-const root = "/verif"
+// root is the directory of the verification tree (cwd of the check script).
+var root = func() string {
+	d, err := os.Getwd()
+	if err != nil {
+		return "/verif"
+	}
+	return d
+}()
 
 var goEnv = []string{"GOFLAGS=-mod=mod", "GOPROXY=off", "GOSUMDB=off", "GOTOOLCHAIN=local", "CGO_ENABLED=1"}
 
